@@ -13,7 +13,7 @@ ENABLED = {"C03"}
 
 def alphabet(dt, rich):
     A = [L.tick(dt)]
-    for e in ["T21", "T22", "SUS", "OPN", "RM1", "IP", "CL"] + (["RM2", "T2x", "IP0"] if rich else []):
+    for e in ["T21", "T22", "SUS", "OPN", "RM1", "IP", "CL", "SUSRM1"] + (["RM2", "T2x", "IP0"] if rich else []):
         A.append(L.tick(dt, e))
     for p in ["PBn", "XBp", "XB", "FOK", "PBm", "LOC", "MOC"] + (["PB", "PL", "PBv", "PLm", "PBp"] if rich else []):
         A.append(L.tick(dt, "Q", [L.P(p)]))
